@@ -352,7 +352,7 @@ def run(ck):
         dplan.append(("differentiate(%s) of diff(f,%s) vs finite difference of differentiate(%s) of f" % (w, v, v), f, len(dlines) - 3, (len(dlines) - 2, len(dlines) - 1, h), 2e-4, env, v, w))
     dimpl, dcr = L.run_lines(ck, exe, dlines, timeout=1800)
     ck.log("diff(...) stream: %d lines, %d crashes" % (len(dlines), len(dcr)))
-    dreported = 0
+    dkeys = set()
     for (label, f, i, j, tol, env, v, w) in dplan:
         a = dimpl[i] if i < len(dimpl) else "missing"
         used = {k: x for k, x in env.items() if re.search(r"\b%s\b" % k, f)}
@@ -361,9 +361,9 @@ def run(ck):
                 continue
             dstat["crash"] += 1
             disagreements += 1
-            if dreported < 3:
-                dreported += 1
-                ck.violation("diff:crash:" + L_pattern(f), "evaluating '%s' at %s crashes the process (%s)" % (dlines[i].split(";")[-1], used, a[6:90]),
+            if "crash" not in dkeys:
+                dkeys.add("crash")
+                ck.violation("diff:crash", "evaluating '%s' at %s crashes the process (%s)" % (dlines[i].split(";")[-1], used, a[6:90]),
                              {"formula": dlines[i].split(";")[-1], "request": dlines[i], "point": used, "implementation": a,
                               "site": "src/Math/DifferentiatedFunctionExpr.cxx / Evaluator::treatDiff",
                               "stderr_tail": next((c[3] for c in dcr if c[0] == i), "")}, True)
@@ -384,9 +384,9 @@ def run(ck):
             continue
         dstat["different"] += 1
         disagreements += 1
-        if dreported < 3:
-            dreported += 1
-            ck.violation("diff:value:" + L_pattern(f),
+        if "value" not in dkeys:
+            dkeys.add("value")
+            ck.violation("diff:value",
                          "%s: '%s' gives %r at %s, the derivative is %r" % (label, dlines[i].split(";", 1)[1] if dlines[i][0] == "V" else dlines[i][2:], va, used, vb),
                          {"formula": f, "variable": v, "second_variable": w, "point": used, "request": dlines[i], "code_value": va,
                           "reference": rhs_desc, "reference_value": vb, "site": "Evaluator::treatDiff / Evaluator::getVariablesNames / DifferentiatedFunctionExpr.cxx"}, True)
